@@ -327,6 +327,57 @@ def use_after_dispose(P, R, disp, rule='C19.UAF.1'):
     R.floor(rule, 3)
 
 
+def splay_decides(P, R, rule='C19.MPT.2'):
+    """Every operation that branches on "smaller / equal / greater than the root" takes that answer from the splay of
+    the key it was given: the three-way variable tested in insert, remove, find and lower bound has no other source
+    (a shortcut that guesses the answer files equal keys twice or misses them)."""
+    n = 0
+    for name in ('set_insert', 'set_remove', 'set_find', 'set_lower'):
+        f = P.fn(name)
+        if f is None:
+            continue
+        tested = set()
+        for b in f.reachable_blocks():
+            for e in f.out[b]:
+                r = e.rel()
+                if r and is_var(r[0]) and r[0].get('sc') == 'local' and const_of(r[2]) == 0 and r[0].get('t') == 'int':
+                    tested.add(r[0]['name'])
+        for v in sorted(tested):
+            defs = f.local_defs(v)
+            srcs = [(d.ev.get('rhs') if d.ev['k'] == 'store' else d.ev.get('init')) for d in defs]
+            srcs = [x for x in srcs if x is not None]
+            if not any(isinstance(x, dict) and x.get('k') == 'callref' and x.get('callee') == 'set_splay' for x in srcs):
+                continue
+            for d, x in zip([d for d in defs if (d.ev.get('rhs') if d.ev['k'] == 'store' else d.ev.get('init')) is not None], srcs):
+                n += 1
+                ok = isinstance(x, dict) and x.get('k') == 'callref' and x.get('callee') == 'set_splay'
+                R.ob(rule, ok, d, '%s: the comparison outcome %s tested against 0 comes from set_splay (assigned %s)' % (name, v, sx(x)), key='splay-result:%s' % name)
+    R.floor(rule, 2, 'insert and lower bound keep the splay result in a variable')
+
+
+def lower_bound_link(P, R, rule='C19.TAB.1'):
+    """The lower bound of a key that is absent and greater than the root found by the splay is the root's successor in
+    iteration order: set_lower returns the link that set_next() follows (`next`), and the root itself otherwise."""
+    f = P.fn('set_lower')
+    if f is None:
+        raise AnalysisBroken('set_lower has vanished')
+    n = 0
+    for s in f.sites():
+        if s.ev['k'] != 'ret' or s.ev.get('val') is None or const_of(s.ev['val']) == 0:
+            continue
+        v = f.expand_local(s.ev['val'], s)
+        gs = f.guards(s.bid)
+        greater = any(is_var(g[0]) and g[1] in ('>', '>=') and const_of(g[2]) in (0, 1) and g[0].get('t') == 'int' and not (g[1] == '>=' and const_of(g[2]) == 0) for g in gs)
+        n += 1
+        if greater:
+            ok = v.get('k') == 'mem' and v.get('field') == 'next' and is_field(v.get('base'), 'root')
+            R.ob(rule, ok, s, 'for a key greater than the splayed root the lower bound is the root\'s list successor (returns %s)' % sx(v), key='lower:greater')
+        else:
+            ok = is_field(v, 'root')
+            R.ob(rule, ok, s, 'otherwise the lower bound is the splayed root itself (returns %s)' % sx(v), key='lower:root')
+    R.floor(rule, 2)
+
+
 def container_rules(P, R, prefix='C19'):
     """All set-container rules under a given id prefix (C10 re-uses the pairing subset)."""
     comparators(P, R, prefix + '.ARITH.1')
@@ -336,6 +387,8 @@ def container_rules(P, R, prefix='C19'):
     link_insert(P, R, prefix + '.LINK.1')
     link_remove(P, R, prefix + '.LINK.2')
     use_after_dispose(P, R, disp, prefix + '.UAF.1')
+    splay_decides(P, R, prefix + '.MPT.2')
+    lower_bound_link(P, R, prefix + '.TAB.1')
 
 
 def run(P, R, tier):
